@@ -65,3 +65,13 @@ package grpcv3
 //@   props C13
 //@   ensures !has(r.reqHeaders, "Cookie") ==> ret0 == ""
 //@   ensures has(r.reqHeaders, "Cookie") ==> ret0 == httpCookie1(r.reqHeaders["Cookie"], name)
+
+// C13 / C08: "expose the same request view ... URL": the URL built from Envoy's check request has the
+// shape the HTTP entry points build (requestcontext.extractURL): RawPath is the path part of the
+// request target as received, Path its decoded form - so an encoded slash is visible to the rules
+// (ghost log epath = HttpRequest.GetPath)
+//@ func NewRequestContext
+//@   props C13 C08
+//@   ensures ret0 != nil && ret0.reqURL != nil
+//@   ensures ret0.reqURL.Path == pathUnescape(ret0.reqURL.RawPath)
+//@   ensures epath.n > old(epath.n) && hasEncodedSlash(epath.ret0[epath.n - 1]) && !contains(epath.ret0[epath.n - 1], "?") ==> hasEncodedSlash(ret0.reqURL.RawPath)
